@@ -302,24 +302,8 @@ func checkC20(w *World, r *Report) {
 						Edges: func(fn *ssa.Function, bind Bind, isVal func(ssa.Value) bool) []Edge {
 							return eqEdges(fn, isVal, func(v ssa.Value) bool { _, is := isCallTo(v, "app/params.GetAuthority"); return is })
 						}}
-					pass, _ := cg.guardEdgesIn(vb, Bind{}, authSpec, 0)
-					if len(pass) > 0 {
-						all := true
-						for _, ret := range Returns(vb) {
-							rv := retVals(ret)
-							if len(rv) == 0 {
-								continue
-							}
-							if nonNilAt(rv[len(rv)-1], ret.Block(), 0) {
-								continue
-							}
-							if !MustPass(vb, pass, ret.Block()) {
-								all = false
-							}
-						}
-						if all {
-							ok, how = true, "compared with appparams.GetAuthority() in a helper whose error ValidateBasic returns; any other value is rejected"
-						}
+					if cg.successRequires(vb, Bind{}, authSpec, 0) {
+						ok, how = true, "compared with appparams.GetAuthority() in a helper whose error ValidateBasic returns; any other value is rejected"
 					}
 				}
 				r.Check(ok, "C20.signers", construct+"."+f, w.Pos(vb.Pos()), "ValidateBasic rejects a malformed address: "+how, "GetSigners parses "+f+" (and panics on a malformed value) but ValidateBasic does not validate it as a bech32 address")
